@@ -550,3 +550,38 @@ func firstDiff(a, b string) string {
 	}
 	return ""
 }
+
+// replayPreload re-judges a C18 counterexample natively: the concatenated program vs. the
+// target with .ti-loader.json and the preload files in the working directory.
+func replayPreload(n *Native, job *Job, v *Violation) (ReplayResult, bool) {
+	whole, ok := v.Witness["whole"]
+	if v.Kind != "assert" || !ok {
+		return ReplayResult{}, false
+	}
+	cw, ok1 := concretizeSym(whole, v.Witness)
+	ct, ok2 := concretizeSym(v.Witness["target"], v.Witness)
+	p0, ok3 := concretizeSym(v.Witness["pre0"], v.Witness)
+	if !ok1 || !ok2 || !ok3 {
+		return ReplayResult{Observed: "cannot make the skeleton concrete"}, true
+	}
+	files := map[string]string{"a.rb": ct, "p0.rb": p0, ".ti-loader.json": `{"preload": ["p0.rb"]}`}
+	if p1, have := v.Witness["pre1"]; have {
+		c1, _ := concretizeSym(p1, v.Witness)
+		files["p1.rb"] = c1
+		files[".ti-loader.json"] = `{"preload": ["p0.rb", "p1.rb"]}`
+	}
+	var pre int
+	fmt.Sscanf(v.Witness["C18.prelines"], "%d", &pre)
+	cfg := nativeConfigFor(n, job, whole)
+	outWhole, _, _ := n.RunTi(map[string]string{"a.rb": cw}, []string{"./a.rb"}, cfg)
+	outSplit, _, _ := n.RunTi(files, []string{"./a.rb"}, cfg)
+	want := dropShift(outWhole, 1, pre)
+	res := ReplayResult{Cmd: "ti ./a.rb with .ti-loader.json + preload files vs. ti on the concatenation",
+		Observed: fmt.Sprintf("concatenation (target part, rebased): %q; preload run: %q", want, outSplit)}
+	if v.ID == "C18-hidden" {
+		res.Reproduced = strings.Contains(outSplit, "p0.rb") || strings.Contains(outSplit, "p1.rb")
+	} else {
+		res.Reproduced = outSplit != want
+	}
+	return res, true
+}
